@@ -880,6 +880,36 @@ func genCall(r *common.Rng, f *fspec, maxLen int) *call {
 		if r.Chance(60) {
 			c.key = common.Pick(r, keyNames)
 		}
+		// inputs an adaptive sort treats specially: already ordered, ordered backwards (ties included),
+		// ordered but for one exchange, a rotation of an ordered run (added after seeded change C14-1)
+		if r.Chance(20) { // ties between different elements in a backwards-ordered input
+			c.key = common.Pick(r, []string{"KAbs", "KSq"})
+			c.test = common.Pick(r, []string{"TLt", "TGt"})
+			c.s1 = append([]int{-1, 1, common.Pick(r, []int{0, 2})}, genSeq(r, 5)...)
+			srt := sortedBy(c.s1, c.test, c.key)
+			for i, j := 0, len(srt)-1; i < j; i, j = i+1, j-1 {
+				srt[i], srt[j] = srt[j], srt[i]
+			}
+			c.s1 = srt
+		} else if r.Chance(40) && len(c.s1) > 1 {
+			srt := sortedBy(c.s1, c.test, c.key)
+			switch r.Intn(4) {
+			case 0:
+				c.s1 = srt
+			case 1:
+				for i, j := 0, len(srt)-1; i < j; i, j = i+1, j-1 {
+					srt[i], srt[j] = srt[j], srt[i]
+				}
+				c.s1 = srt
+			case 2:
+				i, j := r.Intn(len(srt)), r.Intn(len(srt))
+				srt[i], srt[j] = srt[j], srt[i]
+				c.s1 = srt
+			default:
+				k := r.Intn(len(srt))
+				c.s1 = append(append([]int{}, srt[k:]...), srt[:k]...)
+			}
+		}
 	case "merge":
 		c.tkind, c.test = testTest, common.Pick(r, []string{"TLt", "TGt", "TLt", "TGt", "TLe"})
 		if r.Chance(55) {
